@@ -103,6 +103,29 @@ def main(drv):
             bad.append("lemma not discharged: " + name)
         if "sat" in (a, b):
             bad.append("lemma REFUTED: " + name)
+    # 4. cross-solver: the whole solver dialogue of one worker is replayed on the other solvers
+    import os, tempfile
+    for pkg, entry, params in (("v2", "VerifC04Pair", {"N": 1}), ("v2", "VerifC01Flat", {"N": 2}), ("v2", "VerifC03Hunk", {"N": 2})):
+        with tempfile.TemporaryDirectory(prefix="verif_") as td:
+            logp = os.path.join(td, "dialogue.smt2")
+            res, err = drv.run_engine(pkg, [entry], params, {"hash.alias"}, 1, 0, 900, workers=1, extra=["-solverlog", logp])
+            if err:
+                bad.append("solverdiff run: " + err)
+                continue
+            lines = [l for l in open(logp) if not l.startswith("; <<")]
+            text = "".join(lines)
+            def answers(argv, pre=""):
+                r = subprocess.run(argv, input=pre + text, stdout=subprocess.PIPE, stderr=subprocess.STDOUT, text=True, timeout=1800)
+                return [l.strip() for l in r.stdout.split("\n") if l.strip() in ("sat", "unsat", "unknown")], ("(error" in r.stdout)
+            gd = "(set-option :global-declarations true)\n"
+            ref, e0 = answers(["z3", "-in"], gd + "(set-option :produce-models true)\n")
+            for name, argv, pre in (("z3-new", ["z3-new", "-in"], gd + "(set-option :produce-models true)\n"), ("cvc5", ["cvc5", "--incremental", "--lang=smt2", "--produce-models", "--fp-exp"], gd + "(set-logic ALL)\n")):
+                got, e1 = answers(argv, pre)
+                n = min(len(ref), len(got))
+                diff = sum(1 for i in range(n) if ref[i] != got[i] and "unknown" not in (ref[i], got[i]))
+                print("solverdiff %s: %d check-sat answers, z3 4.8.12 vs %s: %d disagreements%s" % (entry, len(ref), name, diff, " (error lines seen)" if (e0 or e1) else ""))
+                if diff or len(ref) != len(got) or e0 or e1:
+                    bad.append("solver disagreement on %s between z3 and %s (%d of %d; lengths %d/%d)" % (entry, name, diff, n, len(ref), len(got)))
     for b in bad:
         print("SELFTEST-FAIL:", b)
     print("selftest %s in %.0fs" % ("FAILED" if bad else "passed", time.time() - t0))
